@@ -595,6 +595,11 @@ func mulOv(a, b int64) (int64, bool) {
 }
 
 func concat(l, r Val) (Val, *Err) {
+	if l.K == KBool || l.K == KTime {
+		// the engine (and its examples) define boolean and time operands of a concatenation only on
+		// the right of a string; the other order is outside the generated domain
+		return Val{}, errf(EUndefined, "%s on the left of a concatenation", l.K)
+	}
 	ls, lerr := toSegs(l)
 	if lerr != nil {
 		return Val{}, lerr
